@@ -73,6 +73,9 @@ def bl_balance(case, ctx):
             if o["black"]:
                 bl = os.path.join(ctx.subdir(), "black.bed")
                 with open(bl, "w") as f:
+                    # with a header line: the CLI guesses with csv.Sniffer whether there is one, and the guess is only
+                    # reliable when there is (string labels over numeric columns)
+                    f.write("chrom\tstart\tend\n")
                     for b in o["black"]:
                         c, s, e = case["table"][b]
                         f.write(f"{gen.CHROMNAMES[c]}\t{s}\t{e}\n")
